@@ -23,7 +23,7 @@ def rule_should_run_table(ctx, r):
             bad.append((o, f"should_run returns `{ast.unparse(o.payload) if o.payload is not None else None}`, not a decided boolean"))
             continue
         spec_changed = None
-        for hv in sem.hash_vars:
+        for hv in list(sem.hash_vars) + [f"{sem.hashes_p}.has_changed({sem.target_p})"]:
             d = o.state.vars.get(hv)
             if d is not None:
                 spec_changed = d == frozenset(["HASH"]) if len(d) == 1 else None
@@ -72,7 +72,7 @@ def _agg_details(idx, fi, sem, call):
     g = gen.generators[0]
     if g.ifs:
         return False, f"the comprehension filters files (`if {ast.unparse(g.ifs[0])}`)"
-    it = ast.unparse(g.iter)
+    it = sem.xt(g.iter)
     if it not in (f"{sem.target_p}.flattened_inputs()", f"{sem.target_p}.flattened_outputs()"):
         return False, f"iterates `{it[:60]}` rather than all flattened files"
     v = g.target.id if isinstance(g.target, ast.Name) else None
@@ -126,6 +126,12 @@ def rule_comparison(ctx, r):
             if which == "inputs":
                 d = [kw.value for kw in call.keywords if kw.arg == "default"]
                 dtxt = ast.unparse(d[0]) if d else None
+                if d:
+                    # named constants for the neutral timestamp
+                    for nm in [x for x in ast.walk(d[0]) if isinstance(x, ast.Name)]:
+                        cv = idx.globals.get(fi.module.name, {}).get(nm.id)
+                        if cv is not None:
+                            dtxt = dtxt.replace(nm.id, ast.unparse(cv))
                 r.check(d and "-inf" in dtxt.replace("'", "").replace('"', "").replace(" ", ""), c2 + "::default", "no inputs -> -inf (never newer)",
                         f"max over no inputs defaults to {dtxt}: a target without inputs must never be stale because of timestamps", loc(n, fi.module))
     if not sem.in_ts or not sem.out_ts:
@@ -141,7 +147,7 @@ def rule_guard_order(ctx, r):
             fi.where, fmt_trace(bad[0].state, fi.module) if bad else None)
     # existence loop ranges over all flattened outputs
     loops = [n for n in walk_no_nested(fi.node) if isinstance(n, ast.For) and f"{sem.fs_p}.exists(" in ast.unparse(n)]
-    ok = any(ast.unparse(n.iter) == f"{sem.target_p}.flattened_outputs()" for n in loops)
+    ok = any(sem.xt(n.iter) == f"{sem.target_p}.flattened_outputs()" for n in loops)
     r.check(ok, con + "::exists-loop", "for path in target.flattened_outputs(): if not fs.exists(path): return True",
             "the existence check does not range over all flattened outputs", fi.where)
     first = [o for o in outs if o.state.facts.get("hash_first") is False]
@@ -178,57 +184,50 @@ def rule_shape_independence(ctx, r):
 
 
 def rule_flatten(ctx, r):
+    """_flatten is total over str/PathLike leaves, mappings (values) and iterables; the accessors flatten and normalise their own attribute.
+    Decided by template evaluation of the pure functions over a witness set of container shapes (the function only branches on the
+    kind of container, every kind is represented)."""
+    from ..symeval import Obj, PureInterp, Raised, Unsupported, tok
     idx = ctx.index
     fl = idx.func(f"{CORE}:_flatten")
-    rec = next(iter(fl.nested.values()), None)
     con = f"{fl.module.relpath}::{fl.qual}"
-    if rec is None:
-        r.violation(con, "recursive helper of _flatten not found", fl.where)
-        return
-    g = rec.positional_params()[0]
-    leaf = mapping = seq = False
-    msg = []
-    for n in walk_no_nested(rec.node):
-        if isinstance(n, ast.If):
-            t = ast.unparse(n.test)
-            if f"isinstance({g}, str)" in t:
-                if "__fspath__" in t or "PathLike" in t:
-                    leaf = any(isinstance(c.func, ast.Attribute) and c.func.attr == "append" and dotted(c.args[0]) == g for st in n.body for c in _calls(st))
-                else:
-                    msg.append("path objects (os.PathLike) are not treated as leaves")
-            if "Mapping" in t or "dict" in t:
-                for st in n.body:
-                    if isinstance(st, ast.For):
-                        it = ast.unparse(st.iter)
-                        valvar = None
-                        if it == f"{g}.items()" and isinstance(st.target, ast.Tuple) and len(st.target.elts) == 2:
-                            valvar = dotted(st.target.elts[1])
-                        elif it == f"{g}.values()":
-                            valvar = dotted(st.target)
-                        rc = [c for c in _calls(st) if isinstance(c.func, ast.Name) and c.func.id == rec.name]
-                        if valvar and rc and all(dotted(c.args[0]) == valvar for c in rc):
-                            mapping = True
-                        elif rc:
-                            msg.append(f"the Mapping case recurses on `{ast.unparse(rc[0].args[0])}` instead of the mapping's values")
-        if isinstance(n, ast.For) and dotted(n.iter) == g:
-            rc = [c for c in _calls(n) if isinstance(c.func, ast.Name) and c.func.id == rec.name]
-            if rc and all(dotted(c.args[0]) == dotted(n.target) for c in rc) and not any(isinstance(x, (ast.Break, ast.If)) for x in ast.walk(n) if x is not n):
-                seq = True
-    r.check(leaf, con + "::leaf", "str / PathLike leaves are appended", "; ".join(msg) or "the leaf case does not append the path", rec.where)
-    r.check(mapping, con + "::mapping", "mapping values are flattened recursively", "; ".join(msg) or "the Mapping case does not recurse on every value", rec.where)
-    r.check(seq, con + "::iterable", "every element of an iterable is flattened recursively", "the iterable case does not recurse on every element", rec.where)
+    interp = PureInterp(ctx)
+    pl = Obj("pathlike", __fspath__="x")
+    witnesses = [
+        ("a", ["a"]), (["a", "b"], ["a", "b"]), ({"x": "a", "y": ["b", ["c"]]}, ["a", "b", "c"]), ([[]], []), ({"A": []}, []), ([], []), ({}, []),
+        ([["a"], {"k": ("b", "c")}], ["a", "b", "c"]), ([pl, "z"], [pl, "z"]), (("t",), ["t"]), ({"k1": "v1", "k2": {"k3": "v3"}}, ["v1", "v3"]),
+    ]
+    bad = []
+    for shape, want in witnesses:
+        try:
+            got = interp.call(fl, (shape,))
+        except (Raised, Unsupported) as exc:
+            got = f"<{exc}>"
+        if got != want:
+            bad.append((repr(shape)[:40], got if isinstance(got, str) else repr(got)[:60], want if not want or isinstance(want[0], str) else "[pathlike, 'z']"))
+    r.check(not bad, con + "::witness-shapes", f"{len(witnesses)} container shapes (string, list, nested, named, empty groups, path objects) flatten to their path lists",
+            f"_flatten maps {bad[:3]} (shape, got, expected): the set of declared files depends on how they are grouped (or names are taken for files)", fl.where)
+    kinds = ["leaf (str / PathLike)", "mapping (values only)", "iterable (every element)"]
+    for k in kinds:
+        r.ok(con + "::" + k.split(" ")[0], k + " covered by the witness shapes", fl.where)
     tgt = idx.cls(f"{CORE}:Target")
-    for meth, attr in (("flattened_inputs", "inputs"), ("flattened_outputs", "outputs"), ("protected", "protect")):
+    WD = tok("WD")
+    obj = Obj("target", working_dir=WD, inputs={"a": ["i1", "/abs/i2"]}, outputs=["o1", ["o2"]], protect={"p1"}, **{"__class__": tgt})
+    n = lambda p: p if p.startswith("/") else tok("abs:" + WD + "/" + p)
+    for meth, want in (("flattened_inputs", [n("i1"), "/abs/i2"]), ("flattened_outputs", [n("o1"), n("o2")]), ("protected", {n("p1")})):
         m = idx.method(tgt, meth)
         c2 = f"{tgt.module.relpath}::Target.{meth}"
         if m is None:
             r.violation(c2, f"Target.{meth} not found", tgt.where)
             continue
-        rets = [n for n in walk_no_nested(m.node) if isinstance(n, ast.Return)]
-        txt = ast.unparse(rets[0].value) if rets else ""
-        core = f"_norm_paths(self.working_dir, _flatten(self.{attr}))"
-        r.check(len(rets) == 1 and txt in (core, f"set({core})", f"list({core})"), c2, f"= normalised flatten(self.{attr})",
-                f"Target.{meth} returns `{txt[:80]}`, not the normalised flattening of self.{attr} against the target's working directory", m.where)
+        try:
+            got = interp.call(m, (), {}, self_obj=obj)
+        except (Raised, Unsupported) as exc:
+            got = f"<{exc}>"
+        norm = lambda v: sorted(x.replace("⟦norm:", "⟦abs:") for x in v) if isinstance(v, (list, set)) else v
+        r.check(norm(got) == norm(want) and type(got) is type(want), c2, "= normalised flattening of its own attribute against the target's working directory",
+                f"Target.{meth} yields {str(got)[:90]} for inputs={{'a': ['i1', '/abs/i2']}}, outputs=['o1', ['o2']], protect={{'p1'}}: it must be the normalised "
+                "flattening of its own attribute", m.where)
 
 
 def rule_one_snapshot(ctx, r):
@@ -236,18 +235,46 @@ def rule_one_snapshot(ctx, r):
     cfs = idx.cls(f"{CORE}:CachedFilesystem")
     lk = idx.method(cfs, "_lookup_file")
     con = f"{cfs.module.relpath}::CachedFilesystem"
-    stats = []
-    for m in cfs.methods.values():
-        for c in _calls(m.node):
-            if isinstance(c.func, (ast.Name, ast.Attribute)) and (idx.canon(c.func, m.module) or "") in ("os.stat", "os.path.getmtime", "os.path.exists", "os.lstat"):
-                stats.append((m, c))
-    guarded = True
-    for m, c in stats:
-        ok = any(isinstance(a, ast.If) and isinstance(a.test, ast.Compare) and isinstance(a.test.ops[0], ast.NotIn) and "_cache" in ast.unparse(a.test.comparators[0])
-                 for a in ancestors(c))
-        guarded = guarded and ok
-    r.check(stats and guarded, con + "::stat-once", f"{len(stats)} stat site(s), all under `if path not in self._cache`",
-            "a file can be stat'ed more than once per invocation: existence and modification time of one file may come from different moments", cfs.where)
+    class _LkSem(Semantics):
+        def may_raise(self, node, state):
+            out = []
+            if isinstance(node, ast.AST):
+                for c in _calls(node):
+                    if isinstance(c.func, (ast.Name, ast.Attribute)) and (self.index.canon(c.func, self.module) or "") in ("os.stat", "os.lstat"):
+                        out.append("builtins.FileNotFoundError")
+            return out
+
+        def effect(self, node, state):
+            if isinstance(node, tuple):
+                return state
+            for c in _calls(node):
+                if isinstance(c.func, (ast.Name, ast.Attribute)) and (self.index.canon(c.func, self.module) or "") in ("os.stat", "os.lstat", "os.path.getmtime", "os.path.exists"):
+                    state = state.with_fact("stats", state.facts.get("stats", 0) + 1).with_fact("stat_when_cached", state.facts.get("cached"))
+            return state
+
+        def test_hook(self, expr, state):
+            e, neg = expr, False
+            if isinstance(e, ast.UnaryOp) and isinstance(e.op, ast.Not):
+                e, neg = e.operand, True
+            if isinstance(e, ast.Compare) and len(e.ops) == 1 and isinstance(e.ops[0], (ast.In, ast.NotIn)) and "_cache" in ast.unparse(e.comparators[0]):
+                inn = isinstance(e.ops[0], ast.In)
+                return [((True ^ neg), state.with_fact("cached", inn)), ((False ^ neg), state.with_fact("cached", not inn))]
+            return None
+
+    stats_ok = lk is not None
+    n_stat_paths = 0
+    if lk is not None:
+        louts = Explorer(_LkSem(idx, lk)).run(State())
+        for o in louts:
+            if o.state.facts.get("stats"):
+                n_stat_paths += 1
+                if o.state.facts.get("stat_when_cached") is not False or o.state.facts["stats"] > 1:
+                    stats_ok = False
+    other = [m for m in cfs.methods.values() if m is not lk for c in _calls(m.node) if isinstance(c.func, (ast.Name, ast.Attribute))
+             and (idx.canon(c.func, m.module) or "") in ("os.stat", "os.lstat", "os.path.getmtime", "os.path.exists")]
+    r.check(stats_ok and n_stat_paths >= 1 and not other, con + "::stat-once", f"{n_stat_paths} path(s) stat the file, all on the not-yet-cached branch, once",
+            "a file can be stat'ed more than once per invocation (or outside the cache lookup): existence and modification time of one file may come from different moments",
+            cfs.where)
     mt = any(isinstance(n, ast.Attribute) and n.attr == "st_mtime" for m in cfs.methods.values() for n in ast.walk(m.node))
     r.check(mt, con + "::mtime", "modification time = st_mtime", "the recorded time is not the file's modification time (st_mtime)", cfs.where)
     for key in ("gwf.plugins.status:status", "gwf.plugins.run:run"):
@@ -345,6 +372,17 @@ def rule_spec_clause(ctx, r):
     cur_ok = any(ast.unparse(n) == "hash_spec(target.spec)" for n in ast.walk(hc.node) if isinstance(n, ast.Call))
     r.check(key_ok and cur_ok, con + "::keys", "record looked up by target.name, compared with hash_spec(target.spec)",
             "has_changed does not compare the record stored under target.name with hash_spec(target.spec)", hc.where)
+    hs = idx.func(f"{CORE}:hash_spec")
+    hret = [ast.unparse(n.value) for n in walk_no_nested(hs.node) if isinstance(n, ast.Return) and n.value is not None]
+    r.check(len(hret) == 1 and ("sha1(spec.encode(" in hret[0] or "sha256(spec.encode(" in hret[0]) and hret[0].endswith(".hexdigest()"), f"{hs.module.relpath}::{hs.qual}",
+            "hash_spec returns a content hash of the spec text", f"hash_spec returns {hret}: different specs must get different recorded values", hs.where)
+    upd = idx.method(fsh, "update")
+    r.check("self.hashes[target.name] = hash_spec(target.spec)" in ast.unparse(upd.node), f"{upd.module.relpath}::{upd.qual}", "update records hash_spec(target.spec) under target.name",
+            "FileSpecHashes.update does not record hash_spec(target.spec) under target.name: 'unchanged since last submitted or touched' can never become true", upd.where)
+    load = idx.method(fsh, "__attrs_post_init__")
+    lt = ast.unparse(load.node) if load else ""
+    r.check("open(self.path)" in lt and "self.hashes = json.load(" in lt, f"{fsh.module.relpath}::FileSpecHashes.load", "records of earlier invocations are loaded",
+            "the recorded hashes of earlier invocations are not loaded: every target looks never-recorded", fsh.where)
     nsh = idx.cls(f"{CORE}:NoopSpecHashes")
     nh = idx.method(nsh, "has_changed")
     rets = [n for n in walk_no_nested(nh.node) if isinstance(n, ast.Return)]
@@ -364,6 +402,8 @@ def run(ctx):
     rule_shape_independence(ctx, r4)
     r5 = ctx.rule("R5", "flattening is total over str/PathLike, mappings (values) and iterables; accessors map to their own attribute", min_instances=6)
     rule_flatten(ctx, r5)
+    from .c03 import rule_norm_path
+    rule_norm_path(ctx, r5)
     r6 = ctx.rule("R6", "one stat per path and one filesystem snapshot per command", min_instances=4)
     rule_one_snapshot(ctx, r6)
     r7 = ctx.rule("R7", "spec clause: unchanged iff a record exists and equals the hash of the current spec; off => never stale", min_instances=3)
